@@ -1,7 +1,18 @@
 import Orb.Proto
 import Orb.Quadtree
 
-/-! Driver for C11 (quadtree vs. plain list) — also used by C19 (sequential oracle). -/
+/-! Driver for C11 (quadtree vs. plain list) — also used by C19 (sequential oracle).
+
+  For every history the driver
+  (1) runs the Float twin of the model (`matchingFrom` / `removeFrom` / `kNearestFrom` started from
+      `some math.MaxFloat64`, exactly as the Go code does) and compares every answer and the final node
+      tree with the implementation, and
+  (2) judges the implementation's answers against the plain-list specification.  Distances are
+      compared EXACTLY: every finite float64 is an integer multiple of 2^-1074, so a squared
+      distance is an integer multiple of 2^-2148 (`zOf`, `d2Z`); no float rounding enters the judge.
+      The same specification evaluated with float64 distances is used only to classify a failure
+      of the exact judge as rounding-sensitive (see `handleHist`).
+-/
 namespace Driver.C11
 open Orb Orb.Proto Orb.Core Orb.Quadtree
 
@@ -13,8 +24,10 @@ inductive Op where
   | remPt (p : Pt F)                      -- Remove(p, nil)
   | find (p : Pt F)
   | matching (p : Pt F) (m r : Nat)       -- filter: id % m == r
-  | knear (p : Pt F) (k : Nat) (m r : Nat) (maxd : Option F)   -- m = 1, r = 0 : no filter
-  | inb (b : Bound F) (m r : Nat)
+  | knear (p : Pt F) (k : Int) (m r : Nat) (maxd : Option F)   -- m = 1, r = 0 : no filter (the wrapper KNearest)
+  | inb (b : Bound F) (m r : Nat)         -- m = 1 : the wrapper InBound
+  | addNil                                -- Add(nil)
+  | remMod (p : Pt F) (m r : Nat)         -- Remove(p, eq = id % m == r)
 deriving Inhabited
 
 def fP : P F := fun ts => (bits ts).map fun (b, ts) => (Float.ofBits b, ts)
@@ -31,16 +44,26 @@ def optF : P (Option F) := fun ts =>
 def opP : P Op := fun ts =>
   match ts with
   | "a" :: ts => do let (id, ts) ← nat ts; let (p, ts) ← ptF ts; pure (.add id p, ts)
+  | "an" :: ts => pure (.addNil, ts)
   | "ri" :: ts => do let (id, ts) ← nat ts; let (p, ts) ← ptF ts; pure (.remId id p, ts)
   | "rp" :: ts => do let (p, ts) ← ptF ts; pure (.remPt p, ts)
+  | "rm" :: ts => do
+    let (p, ts) ← ptF ts; let (m, ts) ← nat ts; let (r, ts) ← nat ts; pure (.remMod p m r, ts)
   | "f" :: ts => do let (p, ts) ← ptF ts; pure (.find p, ts)
   | "m" :: ts => do
     let (p, ts) ← ptF ts; let (m, ts) ← nat ts; let (r, ts) ← nat ts; pure (.matching p m r, ts)
   | "k" :: ts => do
-    let (p, ts) ← ptF ts; let (k, ts) ← nat ts; let (m, ts) ← nat ts; let (r, ts) ← nat ts
+    let (p, ts) ← ptF ts; let (k, ts) ← int ts; let (m, ts) ← nat ts; let (r, ts) ← nat ts
     let (md, ts) ← optF ts; pure (.knear p k m r md, ts)
+  | "kB" :: ts => do   -- with a caller-supplied dirty buffer (length, capacity): the answer must not depend on it
+    let (p, ts) ← ptF ts; let (k, ts) ← int ts; let (m, ts) ← nat ts; let (r, ts) ← nat ts
+    let (md, ts) ← optF ts; let (_, ts) ← nat ts; let (_, ts) ← nat ts; pure (.knear p k m r md, ts)
   | "b" :: ts => do
     let (a, ts) ← ptF ts; let (c, ts) ← ptF ts; let (m, ts) ← nat ts; let (r, ts) ← nat ts
+    pure (.inb ⟨a, c⟩ m r, ts)
+  | "bB" :: ts => do
+    let (a, ts) ← ptF ts; let (c, ts) ← ptF ts; let (m, ts) ← nat ts; let (r, ts) ← nat ts
+    let (_, ts) ← nat ts; let (_, ts) ← nat ts
     pure (.inb ⟨a, c⟩ m r, ts)
   | _ => none
 
@@ -55,30 +78,116 @@ def showTree : Tree F → String
 
 def filt (m r : Nat) (p : Ptr F) : Bool := p.id % m == r
 
-/-- one model step: new tree and the printed result -/
+/-- `math.MaxFloat64` -/
+def maxF : F := Float.ofBits 0x7FEFFFFFFFFFFFFF
+
+/-- multiset difference `before − after` of id lists -/
+def idsDiff (before after : List Nat) : List Nat := after.foldl (fun acc i => acc.erase i) before
+
+/-- the printed result of a removal: `0`, or `1 <id of the one pointer that left the multiset>` -/
+def remOut (q q' : QT F) (ok : Bool) : String :=
+  if !ok then "0" else
+  let b := (contents q.root).map (·.id)
+  let a := (contents q'.root).map (·.id)
+  match idsDiff b a, idsDiff a b with
+  | [x], [] => "1 " ++ toString x
+  | _, _ => "1 ?"
+
+/-- one model step: new tree and the printed result (`panic` when the Go code panics) -/
 def stepModel (q : QT F) (op : Op) : QT F × String :=
   match op with
-  | .add id p => let (q', ok) := add q ⟨id, p⟩; (q', if ok then "1" else "0")
+  | .add id p =>
+    if p.x.isNaN || p.y.isNaN then (q, "0") else   -- Add rejects a NaN point before Bound.Contains
+    let (q', ok) := add q ⟨id, p⟩; (q', if ok then "1" else "0")
+  | .addNil => (q, "1")
   | .remId id p =>
-    let before := contents q.root
-    let (q', ok) := remove Float.sqrt q p (fun x => x.id == id)
-    let after := contents q'.root
-    let gone := before.filter fun x => !(after.any (·.id == x.id))
-    (q', if ok then "1 " ++ (match gone with | [x] => toString x.id | _ => "?") else "0")
+    let (q', ok) := removeFrom (some maxF) Float.sqrt q p (fun x => x.id == id)
+    (q', remOut q q' ok)
   | .remPt p =>
-    let before := contents q.root
-    let (q', ok) := remove Float.sqrt q p (fun x => x.p.x == p.x && x.p.y == p.y)
-    let after := contents q'.root
-    let gone := before.filter fun x => !(after.any (·.id == x.id))
-    (q', if ok then "1 " ++ (match gone with | [x] => toString x.id | _ => "?") else "0")
-  | .find p => (q, match matching Float.sqrt q p (fun _ => true) with | some x => toString x.id | none => "-")
-  | .matching p m r => (q, match matching Float.sqrt q p (filt m r) with | some x => toString x.id | none => "-")
-  | .knear p k m r md => (q, showIds (kNearest Float.sqrt q p k (filt m r) md))
+    let (q', ok) := removeFrom (some maxF) Float.sqrt q p (fun x => x.p.x == p.x && x.p.y == p.y)
+    (q', remOut q q' ok)
+  | .remMod p m r =>
+    let (q', ok) := removeFrom (some maxF) Float.sqrt q p (filt m r)
+    (q', remOut q q' ok)
+  | .find p => (q, match matchingFrom (some maxF) Float.sqrt q p (fun _ => true) with | some x => toString x.id | none => "-")
+  | .matching p m r => (q, match matchingFrom (some maxF) Float.sqrt q p (filt m r) with | some x => toString x.id | none => "-")
+  | .knear p k m r md =>
+    if q.root.isNil || k ≤ 0 then (q, "0")
+    else (q, showIds (kNearestFrom (some maxF) Float.sqrt q p k.toNat (filt m r) md))
   | .inb b m r => (q, showIds (inBound q b (filt m r)))
 
-/-! ### the plain-list specification, evaluated on the implementation's answers -/
+/-! ### exact arithmetic on float64 values -/
+
+def finite (f : F) : Bool := f.isFinite
+
+/-- a finite float64 as an integer number of units 2^-1074 (0 for NaN / ±Inf: callers check `finite`) -/
+def zOf (f : F) : Int :=
+  let n := f.toBits.toNat
+  let e := (n / 2^52) % 2048
+  let m := n % 2^52
+  if e == 2047 then 0 else
+  let mag : Nat := if e == 0 then m else (2^52 + m) <<< (e - 1)
+  if n / 2^63 == 1 then -(Int.ofNat mag) else Int.ofNat mag
+
+/-- a stored pointer of the specification list: the float point and its exact coordinates -/
+structure SP where
+  id : Nat
+  p : Pt F
+  zx : Int
+  zy : Int
+deriving Inhabited
+
+def SP.mk' (id : Nat) (p : Pt F) : SP := ⟨id, p, zOf p.x, zOf p.y⟩
 
 def d2 (a b : Pt F) : F := distSq a b
+
+/-- how distances are measured: `prep` the query point once, `d` = squared distance of a stored
+    pointer, `sq` = the squared limit -/
+structure Metric (γ β : Type) where
+  prep : Pt F → γ
+  d : γ → SP → β
+  sq : F → β
+  lt : β → β → Bool
+  le : β → β → Bool
+
+/-- exact: units of 2^-2148 -/
+def exactMetric : Metric (Int × Int) Int where
+  prep := fun q => (zOf q.x, zOf q.y)
+  d := fun q s => (s.zx - q.1) * (s.zx - q.1) + (s.zy - q.2) * (s.zy - q.2)
+  sq := fun m => zOf m * zOf m
+  lt := fun a b => decide (a < b)
+  le := fun a b => decide (a ≤ b)
+
+/-- float64, as the Go code computes them -/
+def floatMetric : Metric (Pt F) F where
+  prep := id
+  d := fun q s => d2 s.p q
+  sq := fun m => m * m
+  lt := fun a b => a < b
+  le := fun a b => a ≤ b
+
+/-- exact distances compared UP TO THE ROUNDING OF THE PRUNING BOX.  The searches prune a cell when it
+    misses the box `p ± fl(sqrt(fl(d)))` whose edges are rounded once more.  With u = 2^-53:
+    `fl(d) ≥ d(1-4u)`, `fl(sqrt(fl d)) ≥ sqrt(d)(1-3u)`, `fl(p + w) ≥ p + w - u(|p| + w)`; so a pointer in a
+    pruned cell is farther than `sqrt(d) - 5u·S`, `S = max(|p.x|, |p.y|, sqrt d)`.  The window used is
+    `8u·S = 2^-50·S`: `a` counts as smaller than `b` only if `sqrt b - sqrt a > 2^-50·S`, tested without
+    roots as `(b - a)·2^50 > S·(⌊sqrt a⌋ + ⌊sqrt b⌋)` (the floor makes the window narrower, never wider).
+    A value carries the scale `max(|p.x|, |p.y|)` of its query point. -/
+def tolLt (a b : Int × Int) : Bool :=
+  decide (a.1 < b.1) &&
+    (let sb := Int.ofNat (Nat.sqrt b.1.toNat)
+     let sa := Int.ofNat (Nat.sqrt a.1.toNat)
+     let S := max (max a.2 b.2) (sb + 1)
+     decide ((b.1 - a.1) * (2 : Int) ^ 50 > S * (sa + sb)))
+
+def tolMetric : Metric (Int × Int) (Int × Int) where
+  prep := fun q => (zOf q.x, zOf q.y)
+  d := fun q s => ((s.zx - q.1) * (s.zx - q.1) + (s.zy - q.2) * (s.zy - q.2), max q.1.natAbs q.2.natAbs)
+  sq := fun m => (zOf m * zOf m, 0)
+  lt := tolLt
+  le := fun a b => !tolLt b a
+
+/-! ### the plain-list specification, evaluated on the implementation's answers -/
 
 def parseIds (ts : Toks) : Option (List Nat) := do
   let (n, ts) ← nat ts
@@ -86,29 +195,46 @@ def parseIds (ts : Toks) : Option (List Nat) := do
   pure ids
 
 /-- remove the first element with this id -/
-def eraseId (l : List (Ptr F)) (id : Nat) : List (Ptr F) :=
+def eraseId (l : List SP) (id : Nat) : List SP :=
   match l with
   | [] => []
   | x :: xs => if x.id == id then xs else x :: eraseId xs id
 
+/-- the closed box, with explicit inequalities -/
 def inBox (b : Bound F) (p : Pt F) : Bool := b.lo.x ≤ p.x && p.x ≤ b.hi.x && b.lo.y ≤ p.y && p.y ≤ b.hi.y
 
-/-- check one implementation answer against the list `cs`; returns the new list or the failed clause -/
-def stepSpec (qb : Bound F) (cs : List (Ptr F)) (op : Op) (res : Toks) : Except String (List (Ptr F)) :=
+def filtS (m r : Nat) (p : SP) : Bool := p.id % m == r
+
+/-- returned ids are distinct stored candidates: pick them one by one out of the pool -/
+def pick (ids : List Nat) (pool : List SP) (acc : List SP) : Option (List SP × List SP) :=
+  match ids with
+  | [] => some (acc.reverse, pool)
+  | i :: rest =>
+    match pool.find? (·.id == i) with
+    | none => none
+    | some x => pick rest (eraseId pool i) (x :: acc)
+
+/-- check one implementation answer against the list `cs`; returns the new list or the failed clause.
+    `remMulti` reports (through the Bool) that a removal had to choose between candidates. -/
+def stepSpec {γ β : Type} (M : Metric γ β) (qb : Bound F) (cs : List SP) (op : Op) (res : Toks) :
+    Except String (List SP × Bool) :=
   match op with
   | .add id p =>
     let inside := inBox qb p
-    if res == ["1"] then (if inside then .ok (cs ++ [⟨id, p⟩]) else .error "add-accepted-outside")
-    else if res == ["0"] then (if inside then .error "add-rejected-inside" else .ok cs)
+    if res == ["1"] then (if inside then .ok (cs ++ [SP.mk' id p], false) else .error "add-accepted-outside")
+    else if res == ["0"] then (if inside then .error "add-rejected-inside" else .ok (cs, false))
     else .error "add-result"
-  | .remId _ _ | .remPt _ =>
-    let (p, f) : Pt F × (Ptr F → Bool) := match op with
+  | .addNil => if res == ["1"] then .ok (cs, false) else .error "add-nil-result"
+  | .remId _ _ | .remPt _ | .remMod _ _ _ =>
+    let (p, f) : Pt F × (SP → Bool) := match op with
       | .remId id p => (p, fun x => x.id == id)
       | .remPt p => (p, fun x => x.p.x == p.x && x.p.y == p.y)
+      | .remMod p m r => (p, filtS m r)
       | _ => (⟨0, 0⟩, fun _ => false)
     let cand := cs.filter f
+    let q := M.prep p
     match res with
-    | ["0"] => if cand.isEmpty then .ok cs else .error "remove-missed-match"
+    | ["0"] => if cand.isEmpty then .ok (cs, false) else .error "remove-missed-match"
     | ["1", ids] =>
       (match ids.toNat? with
        | none => .error "remove-not-exactly-one"
@@ -116,57 +242,57 @@ def stepSpec (qb : Bound F) (cs : List (Ptr F)) (op : Op) (res : Toks) : Except 
          match cand.find? (·.id == id) with
          | none => .error "remove-wrong-pointer"
          | some x =>
-           if cand.any fun y => d2 y.p p < d2 x.p p then .error "remove-not-closest"
-           else .ok (eraseId cs id))
+           let dx := M.d q x
+           if cand.any fun y => M.lt (M.d q y) dx then .error "remove-not-closest"
+           else .ok (eraseId cs id, cand.any fun y => M.lt dx (M.d q y)))
     | _ => .error "remove-result"
   | .find _ | .matching _ _ _ =>
-    let (p, f) : Pt F × (Ptr F → Bool) := match op with
+    let (p, f) : Pt F × (SP → Bool) := match op with
       | .find p => (p, fun _ => true)
-      | .matching p m r => (p, filt m r)
+      | .matching p m r => (p, filtS m r)
       | _ => (⟨0, 0⟩, fun _ => false)
     let cand := cs.filter f
+    let q := M.prep p
     match res with
-    | ["-"] => if cand.isEmpty then .ok cs else .error "find-missed"
+    | ["-"] => if cand.isEmpty then .ok (cs, false) else .error "find-missed"
     | [ids] =>
       (match ids.toNat? with
        | none => .error "find-result"
        | some id =>
          match cand.find? (·.id == id) with
          | none => .error "find-not-stored-or-filtered"
-         | some x => if cand.any fun y => d2 y.p p < d2 x.p p then .error "find-not-nearest" else .ok cs)
+         | some x =>
+           let dx := M.d q x
+           if cand.any fun y => M.lt (M.d q y) dx then .error "find-not-nearest" else .ok (cs, false))
     | _ => .error "find-result"
   | .knear p k m r md =>
     match parseIds res with
     | none => .error "knearest-result"
     | some ids =>
-      let lim : Ptr F → Bool := fun x => match md with | none => true | some d => d2 x.p p < d * d
-      let cand := (cs.filter (filt m r)).filter lim
-      let want := min k cand.length
+      let q := M.prep p
+      -- "strictly within the limit": the code squares the limit, so a negative limit acts as |limit|
+      let lim : SP → Bool := fun x => match md with | none => true | some d => M.lt (M.d q x) (M.sq d)
+      let cand := (cs.filter (filtS m r)).filter lim
+      let want := min k.toNat cand.length
       if ids.length != want then .error "knearest-count" else
-      -- returned pointers are distinct stored candidates
-      let rec pick (ids : List Nat) (pool : List (Ptr F)) (acc : List (Ptr F)) : Option (List (Ptr F) × List (Ptr F)) :=
-        match ids with
-        | [] => some (acc.reverse, pool)
-        | i :: rest =>
-          match pool.find? (·.id == i) with
-          | none => none
-          | some x => pick rest (eraseId pool i) (x :: acc)
       (match pick ids cand [] with
        | none => .error "knearest-not-stored-or-repeated"
        | some (got, rest) =>
-         let ds := got.map fun x => d2 x.p p
-         let sorted := (ds.zip (ds.drop 1)).all fun (a, b) => a ≤ b
+         let ds := got.map fun x => M.d q x
+         let sorted := (ds.zip (ds.drop 1)).all fun (a, b) => M.le a b
          if !sorted then .error "knearest-not-sorted" else
-         let worst := ds.getLast?.getD 0
-         if !got.isEmpty && rest.any (fun y => d2 y.p p < worst) then .error "knearest-omitted-closer"
-         else .ok cs)
+         match ds.getLast? with
+         | none => .ok (cs, false)
+         | some worst =>
+           if rest.any (fun y => M.lt (M.d q y) worst) then .error "knearest-omitted-closer"
+           else .ok (cs, false))
   | .inb b m r =>
     match parseIds res with
     | none => .error "inbound-result"
     | some ids =>
-      let want := ((cs.filter (filt m r)).filter fun x => inBox b x.p).map (·.id)
+      let want := ((cs.filter (filtS m r)).filter fun x => inBox b x.p).map (·.id)
       let srt (l : List Nat) : List Nat := l.mergeSort (· ≤ ·)
-      if srt ids != srt want then .error "inbound-set" else .ok cs
+      if srt ids != srt want then .error "inbound-set" else .ok (cs, false)
 
 /-- structural invariant on a dumped implementation tree: every value lies in its node's cell -/
 partial def treeP : P (Tree F) := fun ts =>
@@ -206,7 +332,117 @@ def splitSemi (ts : Toks) : List Toks :=
     | t :: rest => go rest (t :: cur) acc
   go ts [] []
 
-/-- `hist <bound> <n> op… => res ; res ; … ; T <tree>` -/
+/-! ### classification of the inputs -/
+
+def ptFinite (p : Pt F) : Bool := finite p.x && finite p.y
+def ptNaN (p : Pt F) : Bool := p.x.isNaN || p.y.isNaN
+
+/-- every coordinate / limit that enters a distance or box comparison of the judge is finite
+    (points offered to `Add` are judged by the add clause alone and need not be) -/
+def opFinite : Op → Bool
+  | .add _ _ | .addNil => true
+  | .remId _ p | .remPt p | .remMod p _ _ | .find p | .matching p _ _ => ptFinite p
+  | .knear p _ _ _ md => ptFinite p && (match md with | none => true | some d => finite d)
+  | .inb b _ _ => ptFinite b.lo && ptFinite b.hi
+
+/-- the query point and the accepted-pointer filter of a distance query -/
+def opQuery : Op → Option (Pt F × (SP → Bool))
+  | .remId id p => some (p, fun x => x.id == id)
+  | .remPt p => some (p, fun x => x.p.x == p.x && x.p.y == p.y)
+  | .remMod p m r => some (p, filtS m r)
+  | .find p => some (p, fun _ => true)
+  | .matching p m r => some (p, filtS m r)
+  | .knear p _ m r _ => some (p, filtS m r)
+  | _ => none
+
+/-- some accepted stored pointer has a float64 squared distance that is not `< MaxFloat64`
+    (overflow): the situation excluded from the exact model -/
+def overflowAt (cs : List SP) (op : Op) : Bool :=
+  match opQuery op with
+  | none => false
+  | some (p, f) => (cs.filter f).any fun x => !(d2 x.p p < maxF)
+
+/-- some float64 quantity compared by the code at this op differs from its exact value -/
+def inexactAt (cs : List SP) (op : Op) : Bool :=
+  match opQuery op with
+  | none => false
+  | some (p, f) =>
+    let q := exactMetric.prep p
+    let unit : Int := (2 : Int) ^ 1074
+    ((cs.filter f).any fun x => let d := d2 x.p p; !(finite d) || zOf d * unit != exactMetric.d q x) ||
+    (match op with
+     | .knear _ _ _ _ (some m) => let s := m * m; !(finite s) || zOf s * unit != exactMetric.sq m
+     | _ => false)
+
+/-- outcome of judging a whole history -/
+structure Verdict where
+  cs : List SP := []
+  idx : Nat := 0
+  err : Option (String × Nat) := none    -- first failed clause and its op index
+  nanAdd : Bool := false                 -- … and it is an accepted `Add` of a NaN point
+  overflow : Bool := false               -- some op could only be judged as "outside the exact model"
+  rounding : Bool := false               -- some op was right for float64 distances only
+  boxRounding : Bool := false            -- some op was right only up to the rounding of the pruning box
+  remMulti : Bool := false
+
+/-- the list after an op whose distance clause could not be judged exactly: only removals change it,
+    and the pointer that left is named by the implementation's answer -/
+def nextCs (cs : List SP) (op : Op) (res : Toks) : List SP :=
+  match op, res with
+  | .remId _ _, ["1", ids] | .remPt _, ["1", ids] | .remMod _ _ _, ["1", ids] => eraseId cs (ids.toNat?.getD 0)
+  | _, _ => cs
+
+/-- Judge every answer with EXACT distances.  An op that fails the exact judge is set aside (and the
+    history is then answered `skip …`, never `ok`) in exactly two situations:
+    * some accepted pointer's float64 squared distance is not `< MaxFloat64` (overflow — outside the
+      exact model, see `partial`);
+    * the answer satisfies the same clause evaluated with the float64 distances the code computes,
+      and one of those float64 quantities is not exact (float rounding of the distances);
+    * the answer satisfies the same clause with exact distances compared up to the rounding of the
+      pruning box (`tolMetric`: a relative window of 2^-50, derived there).
+    Every other failure is the verdict. -/
+def judge (qb : Bound F) (ops : List Op) (results : List Toks) : Verdict :=
+  (ops.zip results).foldl (fun (acc : Verdict) (op, res) =>
+    if acc.err.isSome then acc else
+    match stepSpec exactMetric qb acc.cs op res with
+    | .ok (cs', multi) => { acc with cs := cs', idx := acc.idx + 1, remMulti := acc.remMulti || multi }
+    | .error e =>
+      if e == "add-accepted-outside" && (match op with | .add _ p => ptNaN p | _ => false) then
+        { acc with err := some (e, acc.idx), nanAdd := true }
+      else if overflowAt acc.cs op then
+        { acc with cs := nextCs acc.cs op res, idx := acc.idx + 1, overflow := true }
+      else
+        match (if inexactAt acc.cs op then stepSpec floatMetric qb acc.cs op res else .error "") with
+        | .ok (cs', _) => { acc with cs := cs', idx := acc.idx + 1, rounding := true }
+        | .error _ =>
+          match stepSpec tolMetric qb acc.cs op res with
+          | .ok (cs', _) => { acc with cs := cs', idx := acc.idx + 1, boxRounding := true }
+          | .error _ => { acc with err := some (e, acc.idx) }) {}
+
+def halfGrid (f : F) : Bool := let g := f * 2; g.floor == g && g.abs ≤ 64
+
+/-- the one feature of a history that the verdict tag names (rotating, so that every feature is counted) -/
+def featureTag (inp : Toks) (qb : Bound F) (ops : List Op) (remMulti : Bool) : String :=
+  let addIds := ops.filterMap fun | .add id _ => some id | _ => none
+  let feats : List (String × Bool) := [
+    ("rm-among-several", remMulti),
+    ("zero-extent-bound", qb.lo.x == qb.hi.x || qb.lo.y == qb.hi.y),
+    ("nondyadic-bound", !(halfGrid qb.lo.x && halfGrid qb.lo.y && halfGrid qb.hi.x && halfGrid qb.hi.y)),
+    ("inverted-box", ops.any fun | .inb b _ _ => b.lo.x > b.hi.x || b.lo.y > b.hi.y | _ => false),
+    ("add-nil", ops.any fun | .addNil => true | _ => false),
+    ("neg-k", ops.any fun | .knear _ k _ _ _ => k < 0 | _ => false),
+    ("neg-limit", ops.any fun | .knear _ _ _ _ (some d) => d < 0 | _ => false),
+    ("same-pointer-again", addIds.length != addIds.eraseDups.length),
+    ("dirty-buffer", inp.any fun t => t == "kB" || t == "bB"),
+    ("wrapper", ops.any fun | .knear _ _ 1 _ _ | .inb _ 1 _ => true | _ => false)]
+  let n := feats.length
+  let start := ops.length % n
+  let rot := feats.drop start ++ feats.take start
+  match rot.find? (·.2) with
+  | some (s, _) => " " ++ s
+  | none => ""
+
+/-- `hist <bound> <n> op… => res ; res ; … ; T <tree>`   (or `… ; panic` when the library panicked) -/
 def handleHist (inp out : Toks) : String :=
   match (do
     let (a, i) ← ptF inp
@@ -216,44 +452,64 @@ def handleHist (inp out : Toks) : String :=
     pure ((⟨a, b⟩ : Bound F), ops)) with
   | none => "bad input"
   | some (qb, ops) =>
-    if out == ["panic"] then "propfail panic" else
-    let parts := splitSemi out
-    if parts.length != ops.length + 1 then "bad output-arity" else
-    let results := parts.take ops.length
-    let treeToks := parts.getLast!
+    if out.head? == some "badcase" then "bad " ++ " ".intercalate out else
     -- model run
     let (qm, mres) := ops.foldl (fun (acc : QT F × List String) op =>
       let (q', s) := stepModel acc.1 op; (q', acc.2 ++ [s])) (⟨qb, .nil⟩, [])
+    let parts := splitSemi out
+    -- a library panic ends the history: `res … ; panic`
+    if parts.getLast? == some ["panic"] then
+      let i := parts.length - 1
+      let before := (parts.take i).map (" ".intercalate ·)
+      -- the answers before the panic are judged like any others
+      let opsB := ops.take i
+      let vB := if ptFinite qb.lo && ptFinite qb.hi && opsB.all opFinite then judge qb opsB (parts.take i) else {}
+      match vB.err with
+      | some (e, j) => s!"propfail {e} op#{j}"
+      | none =>
+        if i < ops.length && before == mres.take i && mres[i]? == some "panic" then
+          -- implementation and model agree up to and including the panic, and the model attributes it to
+          -- make(maxHeap, 0, k+1) for an unallocatable k
+          s!"propfail knearest-huge-k-panic op#{i}"
+        else s!"propfail panic op#{i}"
+    else
+    if parts.length != ops.length + 1 then "bad output-arity" else
+    let results := parts.take ops.length
+    let treeToks := parts.getLast!
     let mtree := "T " ++ showTree qm.root
     let agree := (results.map (" ".intercalate ·)) == mres && " ".intercalate treeToks == mtree
-    let fin (s : String) : String :=
-      if s.startsWith "propfail" || agree then s
-      else
-        let firstBad := ((results.map (" ".intercalate ·)).zip mres).findIdx? fun (a, b) => a != b
-        s!"diff op#{firstBad.getD ops.length} model: {" ; ".intercalate mres} ; {mtree}"
-    fin <|
-    -- spec run on the implementation's answers
-    let r := (ops.zip results).foldl (fun (acc : Except String (List (Ptr F)) × Nat) (op, res) =>
-      match acc.1 with
-      | .error e => (.error e, acc.2)
-      | .ok cs => (match stepSpec qb cs op res with
-                   | .error e => (.error s!"{e} op#{acc.2}", acc.2)
-                   | .ok cs' => (.ok cs', acc.2 + 1))) (.ok [], 0)
-    match r.1 with
-    | .error e => "propfail " ++ e
-    | .ok cs =>
+    let diffMsg : String :=
+      let firstBad := ((results.map (" ".intercalate ·)).zip mres).findIdx? fun (a, b) => a != b
+      s!"diff op#{firstBad.getD ops.length} model: {" ; ".intercalate mres} ; {mtree}"
+    -- `propfail` outranks `diff`; everything else (ok, skip, and the labels of recorded situations)
+    -- is given only when implementation and model agree on the whole history
+    let fin (s : String) : String := if s.startsWith "propfail" || agree then s else diffMsg
+    if !(ptFinite qb.lo && ptFinite qb.hi && ops.all opFinite) then fin "skip nonfinite-query-input" else
+    -- spec run on the implementation's answers, exact distances
+    let v := judge qb ops results
+    match v.err with
+    | some (e, i) =>
+      -- Add accepted a point with a NaN coordinate (Bound.Contains has only negated comparisons):
+      -- the specific label is given only when implementation and model agree on the history
+      if v.nanAdd && agree then s!"propfail add-accepted-nan op#{i}" else s!"propfail {e} op#{i}"
+    | none =>
+      fin <|
       match treeToks with
       | "T" :: tt =>
         (match treeP tt with
          | some (t, _) =>
            let srt (l : List Nat) : List Nat := l.mergeSort (· ≤ ·)
-           if srt (treeIds t) != srt (cs.map (·.id)) then "propfail contents-multiset"
+           if srt (treeIds t) != srt (v.cs.map (·.id)) then "propfail contents-multiset"
            else
-             let pts : Nat → Option (Pt F) := fun id => (cs.find? (·.id == id)).map (·.p)
+             let pts : Nat → Option (Pt F) := fun id => (v.cs.find? (·.id == id)).map (·.p)
              if !invTree pts t (rootCell qb) then "propfail cell-invariant"
+             else if v.overflow then "skip dist-overflow"
+             else if v.boxRounding then "skip rounding-sensitive pruning-box"
+             else if v.rounding then "skip rounding-sensitive"
              else
-               let hasRem := ops.any fun | .remId _ _ | .remPt _ => true | _ => false
-               if ops.length ≤ 1 then "ok triv" else if hasRem then "ok hist-with-removal" else "ok hist"
+               let hasRem := ops.any fun | .remId _ _ | .remPt _ | .remMod _ _ _ => true | _ => false
+               if ops.length ≤ 1 then "ok triv"
+               else (if hasRem then "ok hist-with-removal" else "ok hist") ++ featureTag inp qb ops v.remMulti
          | none => "bad tree")
       | _ => "bad tree-token"
 
@@ -263,6 +519,7 @@ def handle (ts : Toks) : String :=
     let (inp, out) := splitArrow rest
     match op with
     | "hist" => handleHist inp out
+    | "trunc" => "skip exhaustive-truncated " ++ " ".intercalate (inp.take 2)
     | _ => "bad op " ++ op
   | [] => "bad empty"
 
